@@ -18,7 +18,7 @@ import (
 type AES struct {
 	Plain  []byte `json:"plain"`
 	Key    []byte `json:"key"`
-	Key2   []byte `json:"key2"` // another key of a valid size, different from Key
+	Key2   []byte `json:"key2"` // another key (any length), different from Key
 	API    string `json:"api"`  // string (EncryptAES/DecryptAES) | bytes (EncryptBytesAES/DecryptBytesAES)
 	IV     []byte `json:"iv"`   // IV of the harness-side sealing (16 bytes)
 	Tamper string `json:"tamper"`
@@ -42,25 +42,105 @@ func genAES(t *rapid.T) *AES {
 		n := rapid.IntRange(8, 70).Draw(t, "plainlen")
 		a.Plain = rapid.SliceOfN(rapid.Byte(), n, n).Draw(t, "plain")
 	}
-	klen := rapid.SampledFrom([]int{16, 24, 32, 16, 24, 32, 16, 24, 32, 32, 0, 15, 17, 31, 33, 64}).Draw(t, "keylen")
-	a.Key = rapid.SliceOfN(rapid.Byte(), klen, klen).Draw(t, "key")
-	k2len := rapid.SampledFrom([]int{16, 24, 32}).Draw(t, "key2len")
-	if rapid.Bool().Draw(t, "key2near") && (klen == 16 || klen == 24 || klen == 32) {
-		// the other key differs in one bit
-		a.Key2 = append([]byte{}, a.Key...)
-		i := rapid.IntRange(0, klen-1).Draw(t, "flipbyte")
-		a.Key2[i] ^= 1 << rapid.IntRange(0, 7).Draw(t, "flipbit")
-	} else {
-		a.Key2 = rapid.SliceOfN(rapid.Byte(), k2len, k2len).Draw(t, "key2")
-		if bytes.Equal(a.Key2, a.Key) {
-			a.Key2[0] ^= 0x80
-		}
-	}
+	a.Key, a.Key2 = genKeyPair(t)
 	a.IV = rapid.SliceOfN(rapid.Byte(), 16, 16).Draw(t, "iv")
 	a.Tamper = rapid.SampledFrom([]string{"none", "truncate", "truncate", "nonb64", "nonb64", "cut"}).Draw(t, "tamper")
 	a.Pos = rapid.IntRange(0, 200).Draw(t, "pos")
 	a.Char = rapid.SampledFrom([]string{"+", "/", "=", "!", " ", "%", ".", "~", "*", "\x00", "é"}).Draw(t, "char")
 	return a
+}
+
+// genKeyLen: the three AES key sizes most of the time, otherwise any length 0..80.
+func genKeyLen(t *rapid.T, label string) int {
+	if rapid.IntRange(0, 9).Draw(t, label+":odd") < 6 {
+		return rapid.SampledFrom([]int{16, 24, 32}).Draw(t, label)
+	}
+	if rapid.Bool().Draw(t, label+":edge") {
+		return rapid.SampledFrom([]int{0, 1, 8, 15, 17, 20, 23, 25, 31, 33, 40, 48, 64, 80}).Draw(t, label+":edgelen")
+	}
+	return rapid.IntRange(0, 80).Draw(t, label+":any")
+}
+
+func genBytes(t *rapid.T, label string, n int) []byte {
+	switch rapid.IntRange(0, 5).Draw(t, label+":fill") {
+	case 0: // printable, like a configured secret
+		const alphabet = "abcdefghijklmnopqrstuvwxyzABCDEFGHIJKLMNOPQRSTUVWXYZ0123456789-_:"
+		b := make([]byte, n)
+		for i := range b {
+			b[i] = alphabet[rapid.IntRange(0, len(alphabet)-1).Draw(t, label+":c")]
+		}
+		return b
+	case 1:
+		return bytes.Repeat([]byte{rapid.SampledFrom([]byte{0, ' ', '0', 0xff}).Draw(t, label+":rep")}, n)
+	}
+	return rapid.SliceOfN(rapid.Byte(), n, n).Draw(t, label)
+}
+
+// genKeyPair: two different keys of arbitrary lengths (0..80 bytes each): independent; one bit apart; sharing a prefix (of an AES key
+// size or any length) and differing afterwards; one a proper prefix of the other (suffix random, zeros, spaces).
+func genKeyPair(t *rapid.T) (k1, k2 []byte) {
+	switch rapid.SampledFrom([]string{"independent", "independent", "near", "prefix", "prefix", "prefix", "extend"}).Draw(t, "pair") {
+	case "near":
+		n := genKeyLen(t, "keylen")
+		if n > 0 {
+			k1 = genBytes(t, "key", n)
+			k2 = append([]byte{}, k1...)
+			k2[rapid.IntRange(0, n-1).Draw(t, "flipbyte")] ^= 1 << rapid.IntRange(0, 7).Draw(t, "flipbit")
+			return k1, k2
+		}
+	case "prefix":
+		p := rapid.SampledFrom([]int{16, 24, 32, 16, 24, 32, 8, 15, 17, 31, 33, 40}).Draw(t, "prefixlen")
+		if rapid.IntRange(0, 4).Draw(t, "prefixfree") == 0 {
+			p = rapid.IntRange(0, 64).Draw(t, "prefixlenfree")
+		}
+		n1 := rapid.SampledFrom([]int{0, 0, 1, 2, 8, 9, 16}).Draw(t, "suffix1len")
+		n2 := rapid.SampledFrom([]int{0, 1, 1, 2, 8, 9, 16}).Draw(t, "suffix2len")
+		if rapid.IntRange(0, 2).Draw(t, "suffixfree") == 0 {
+			n1, n2 = rapid.IntRange(0, 80-p).Draw(t, "suffix1lenfree"), rapid.IntRange(0, 80-p).Draw(t, "suffix2lenfree")
+		}
+		if p+n1 > 80 {
+			n1 = 80 - p
+		}
+		if p+n2 > 80 {
+			n2 = 80 - p
+		}
+		prefix := genBytes(t, "prefix", p)
+		k1 = append(append([]byte{}, prefix...), genBytes(t, "suffix1", n1)...)
+		k2 = append(append([]byte{}, prefix...), genBytes(t, "suffix2", n2)...)
+	case "extend":
+		base := genBytes(t, "key", genKeyLen(t, "keylen"))
+		n := rapid.IntRange(1, 16).Draw(t, "extendby")
+		if len(base)+n > 80 {
+			n = 80 - len(base)
+		}
+		long := append(append([]byte{}, base...), genBytes(t, "extension", n)...)
+		if rapid.Bool().Draw(t, "extendfirst") {
+			k1, k2 = long, base
+		} else {
+			k1, k2 = base, long
+		}
+	}
+	if k1 == nil && k2 == nil {
+		k1 = genBytes(t, "key", genKeyLen(t, "keylen"))
+		k2 = genBytes(t, "key2", genKeyLen(t, "key2len"))
+	}
+	if bytes.Equal(k1, k2) {
+		if len(k2) > 0 {
+			k2 = append([]byte{}, k2...)
+			k2[len(k2)-1] ^= 0x80
+		} else {
+			k2 = []byte{0x80}
+		}
+	}
+	return k1, k2
+}
+
+func commonPrefix(a, b []byte) int {
+	n := 0
+	for n < len(a) && n < len(b) && a[n] == b[n] {
+		n++
+	}
+	return n
 }
 
 // referenceSeal / referenceOpen: AES-CFB with the IV in front, raw URL base64 for the string API; standard library only.
@@ -122,10 +202,13 @@ func runAES(c Case, res *vkit.Result) {
 	if a.Plain == nil {
 		a.Plain = []byte{}
 	}
-	validKey := len(a.Key) == 16 || len(a.Key) == 24 || len(a.Key) == 32
+	aesSize := func(k []byte) bool { return len(k) == 16 || len(k) == 24 || len(k) == 32 }
+	validKey := aesSize(a.Key)
 	res.Label("kind:aes", "aes:"+a.API)
 	if validKey {
 		res.Label(fmt.Sprintf("aes:keylen-%d", len(a.Key)))
+	} else {
+		res.Label("aes:keylen-other")
 	}
 	switch {
 	case len(a.Plain) == 0:
@@ -137,35 +220,92 @@ func runAES(c Case, res *vkit.Result) {
 	default:
 		res.Label("aes:plain-other")
 	}
+	// how the two keys relate
+	cp := commonPrefix(a.Key, a.Key2)
+	rel := "cp0"
+	switch {
+	case bytes.Equal(a.Key, a.Key2):
+		rel = "identical"
+	case cp == len(a.Key) || cp == len(a.Key2):
+		rel = "one-extends-other"
+	case cp >= 32:
+		rel = "cp32+"
+	case cp >= 24:
+		rel = "cp24-31"
+	case cp >= 16:
+		rel = "cp16-23"
+	case cp > 0:
+		rel = "cp1-15"
+	}
+	res.Label("aes:pair-" + rel)
+	if !aesSize(a.Key2) {
+		res.Label("aes:key2len-other")
+	}
 	res.NonTrivial = validKey && len(a.Plain)%16 != 0
-	res.Key = fmt.Sprintf("aes|%s|k%d|p%d|%s", a.API, len(a.Key), len(a.Plain), a.Tamper)
+	res.Key = fmt.Sprintf("aes|%s|k%d|%s|p%d|%s", a.API, len(a.Key), rel, len(a.Plain), a.Tamper)
 	info := map[string]any{}
 	res.Info = info
 
+	// "only under the same key": whatever was sealed under k (whenever sealing under k succeeds, whatever the length of k) must not
+	// open to its plaintext under k2 != k. CFB is unauthenticated: plaintexts shorter than 8 bytes collide by chance and are grey.
+	otherKey := func(dir string, sealed, k, k2 []byte) {
+		if bytes.Equal(k, k2) {
+			return
+		}
+		other, err := libOpen(a.API, sealed, k2)
+		switch {
+		case len(a.Plain) < 8:
+			res.Label("aes:otherkey-grey-short")
+		case err == nil && bytes.Equal(other, a.Plain):
+			res.Fail("C12:aes-opens-under-other-key", "a %d-byte plaintext sealed under a %d-byte key opens to the plaintext under a different key of %d bytes (%s; the keys agree in their first %d bytes)",
+				len(a.Plain), len(k), len(k2), dir, commonPrefix(k, k2))
+		case err != nil:
+			res.Label("aes:otherkey-refused")
+		default:
+			res.Label("aes:otherkey-garbage")
+		}
+	}
+
 	pan, stack := guarded(func() {
 		s1, err := libSeal(a.API, a.Plain, a.Key)
-		if !validKey {
-			// no AES key: nothing can be sealed. The statement only covers sealed strings; an error is the sane answer, a panic is not.
-			res.Label("aes:bad-key")
-			info["outcome"] = fmt.Sprintf("bad key: err=%v", err)
-			if err == nil {
-				if back, err2 := libOpen(a.API, s1, a.Key); err2 != nil || !bytes.Equal(back, a.Plain) {
-					res.Fail("C12:aes-roundtrip", "sealing with a %d-byte key succeeded but does not open again (err=%v)", len(a.Key), err2)
-				}
+		if err != nil {
+			if validKey {
+				res.Fail("C12:aes-seal-error", "sealing %d bytes with a %d-byte key failed: %v", len(a.Plain), len(a.Key), err)
+				return
 			}
+			// no AES key: nothing is sealed, the claims about sealed strings are vacuous for this key. An error is the sane answer, a panic is not.
+			res.Label("aes:bad-key", "aes:vacuous-key-refused")
+			info["outcome"] = fmt.Sprintf("bad key: err=%v", err)
 			libOpen(a.API, textOf(a.API, append(append([]byte{}, a.IV...), a.Plain...)), a.Key)
-			return
+		} else {
+			if !validKey {
+				// the statement does not say which keys are usable; what is sealed must still open, and only under that key
+				res.Label("aes:odd-key-accepted")
+			}
+			// 1. the library opens what it sealed
+			back, err := libOpen(a.API, s1, a.Key)
+			if err != nil {
+				res.Fail("C12:aes-roundtrip", "sealed string of a %d-byte plaintext (%d-byte key) does not open under the same key: %v", len(a.Plain), len(a.Key), err)
+			} else if !bytes.Equal(back, a.Plain) {
+				res.Fail("C12:aes-roundtrip", "sealed string opens to %q, plaintext was %q", back, a.Plain)
+			}
+			// 4. only under the same key
+			otherKey("sealed under key, opened under key2", s1, a.Key, a.Key2)
 		}
-		if err != nil {
-			res.Fail("C12:aes-seal-error", "sealing %d bytes with a %d-byte key failed: %v", len(a.Plain), len(a.Key), err)
-			return
+		// the same claim with the roles of the two keys exchanged
+		if s3, err := libSeal(a.API, a.Plain, a.Key2); err == nil {
+			if back, err := libOpen(a.API, s3, a.Key2); err != nil || !bytes.Equal(back, a.Plain) {
+				res.Fail("C12:aes-roundtrip", "sealed string of a %d-byte plaintext (%d-byte key) does not open under the same key (err=%v)", len(a.Plain), len(a.Key2), err)
+			}
+			otherKey("sealed under key2, opened under key", s3, a.Key2, a.Key)
+		} else {
+			if aesSize(a.Key2) {
+				res.Fail("C12:aes-seal-error", "sealing %d bytes with a %d-byte key failed: %v", len(a.Plain), len(a.Key2), err)
+			}
+			res.Label("aes:vacuous-key2-refused")
 		}
-		// 1. the library opens what it sealed
-		back, err := libOpen(a.API, s1, a.Key)
-		if err != nil {
-			res.Fail("C12:aes-roundtrip", "sealed string of a %d-byte plaintext does not open under the same key: %v", len(a.Plain), err)
-		} else if !bytes.Equal(back, a.Plain) {
-			res.Fail("C12:aes-roundtrip", "sealed string opens to %q, plaintext was %q", back, a.Plain)
+		if !validKey || err != nil {
+			return
 		}
 		// 2. independent implementation agrees in both directions
 		raw1, err := rawOf(a.API, s1)
@@ -191,16 +331,6 @@ func runAES(c Case, res *vkit.Result) {
 			res.Fail("C12:aes-iv-reuse", "two sealings of the same plaintext under the same key are identical: %q", s1)
 		} else if len(raw1) >= 16 && len(raw2) >= 16 && bytes.Equal(raw1[:16], raw2[:16]) {
 			res.Fail("C12:aes-iv-reuse", "two sealings use the same IV %x", raw1[:16])
-		}
-		// 4. only under the same key
-		other, err := libOpen(a.API, s1, a.Key2)
-		switch {
-		case len(a.Plain) < 8:
-			res.Label("aes:otherkey-grey-short")
-		case err == nil && bytes.Equal(other, a.Plain):
-			res.Fail("C12:aes-opens-under-other-key", "sealed string opens to its plaintext under a different key (%d-byte plaintext)", len(a.Plain))
-		default:
-			res.Label("aes:otherkey-refused")
 		}
 		// 5. tampering
 		switch a.Tamper {
